@@ -188,36 +188,82 @@ def run_case(case):
         # probabilities T's classifier gives to that very sub-batch (identical floats when the routing agrees)
         bynode = {nd.index: nd for nd in nodes}
         children = {nd.index: [c.index for c in (nd.above, nd.below) if c is not None] for nd in nodes}
-        ends = {}
-        chain_ok = True
-        for i in range(len(probes)):
-            marked = set(numpy.where(path[i] != 0)[0].tolist())
-            cur, seen_ = m.tree_.index, {m.tree_.index}
-            if cur not in marked:
-                chain_ok = False
-                break
-            while True:
-                nxt = [c for c in children[cur] if c in marked]
-                if len(nxt) > 1:
-                    chain_ok = False
-                    break
-                if not nxt:
-                    break
-                cur = nxt[0]
-                seen_.add(cur)
-            if not chain_ok or seen_ != marked:
-                chain_ok = False
-                break
-            ends.setdefault(cur, []).append(i)
-        if not chain_ok:
-            bad("decision_path does not mark a single root-to-node chain", desc)
-        else:
+
+        def consistency(Q, proba_q, path_q, tag):
+            ends = {}
+            for i in range(len(Q)):
+                marked = set(numpy.where(path_q[i] != 0)[0].tolist())
+                cur, seen_ = m.tree_.index, {m.tree_.index}
+                if cur not in marked:
+                    bad("decision_path does not mark a single root-to-node chain" + tag, desc)
+                    return
+                while True:
+                    nxt = [c for c in children[cur] if c in marked]
+                    if len(nxt) > 1:
+                        bad("decision_path does not mark a single root-to-node chain" + tag, desc)
+                        return
+                    if not nxt:
+                        break
+                    cur = nxt[0]
+                    seen_.add(cur)
+                if seen_ != marked:
+                    bad("decision_path does not mark a single root-to-node chain" + tag, desc)
+                    return
+                ends.setdefault(cur, []).append(i)
             for t, rows_t in ends.items():
-                pt = bynode[t].estimator.predict_proba(probes[rows_t])
-                if numpy.abs(pt - proba[rows_t]).max() > 1e-13:
-                    bad("decision_path and predict_proba route a row differently (same batch)", "node %d rows %r: %r vs %r %s" % (
-                        t, rows_t[:4], pt[:2].tolist(), proba[rows_t][:2].tolist(), desc))
+                pt = bynode[t].estimator.predict_proba(Q[rows_t])
+                if numpy.abs(pt - proba_q[rows_t]).max() > 1e-13:
+                    bad("decision_path and predict_proba route a row differently (same batch)" + tag, "node %d rows %r: %r vs %r %s" % (
+                        t, [Q[j].tolist() for j in rows_t[:3]], pt[:2].tolist(), proba_q[rows_t][:2].tolist(), desc))
+                    return
+
+        consistency(probes, proba, path, "")
+        # border rows: for every node with two children, the point of a segment between two probes where the node's decision
+        # changes sign, located by bisection to the last bit, and its floating-point neighbours on the segment. There the
+        # probability is within one ulp of the threshold; whatever side each of them falls on, predict_proba and
+        # decision_path must agree with each other
+        border = []
+        for nd in nodes:
+            if nd.above is None or nd.below is None:
+                continue
+            est_ = nd.estimator
+            if hasattr(est_, "decision_function"):
+                f = lambda x_: float(est_.decision_function(x_.reshape(1, -1))[0])
+            else:
+                f = lambda x_: float(est_.predict_proba(x_.reshape(1, -1))[0, 1] - nd.threshold)
+            vals = [f(q) for q in probes[:12]]
+            pos = [j for j, v in enumerate(vals) if v > 0]
+            neg = [j for j, v in enumerate(vals) if v < 0]
+            if not pos or not neg:
+                continue
+            a_, b_ = probes[neg[0]], probes[pos[0]]
+            lo_t, hi_t = 0.0, 1.0
+            for _ in range(200):
+                mid = (lo_t + hi_t) / 2
+                if mid == lo_t or mid == hi_t:
                     break
+                if f(a_ + mid * (b_ - a_)) > 0:
+                    hi_t = mid
+                else:
+                    lo_t = mid
+            ts = [lo_t, hi_t]
+            for _ in range(6):
+                ts = [numpy.nextafter(ts[0], -1.0)] + ts + [numpy.nextafter(ts[-1], 2.0)]
+            border.extend(a_ + t_ * (b_ - a_) for t_ in ts)
+        if border:
+            Qb = numpy.array(border)
+            try:
+                pb = m.predict_proba(Qb)
+                pathb = numpy.asarray(m.decision_path(Qb).todense())
+                cnt += 1
+                consistency(Qb, pb, pathb, " (rows within a few ulps of a node's border)")
+                # and row by row (a batch of one)
+                for i in range(0, len(Qb), 3):
+                    p1_ = m.predict_proba(Qb[i:i + 1])
+                    path1_ = numpy.asarray(m.decision_path(Qb[i:i + 1]).todense())
+                    consistency(Qb[i:i + 1], p1_, path1_, " (rows within a few ulps of a node's border)")
+            except Exception as e:
+                bad("raises %s on border rows" % type(e).__name__, "%s %s" % (e, desc))
         # the same batch as a DataFrame and as a list (values that are not float32-representable): the public methods
         # must route exactly as they do for the ndarray
         if case.get("inexact"):
